@@ -65,6 +65,13 @@ def write_docroot(base):
     open(os.path.join(base, 'sub', 'g.html'), 'wb').write(b'<p>sub page</p>\n' * 20)
     big = big_content()
     open(os.path.join(base, BIG_NAME), 'wb').write(big)
+    # special files in the served directory (regression of F76): a named pipe, asked for directly, through a link, through the .html rule
+    # and as an index page - opening one blocks until somebody writes to it; a link to a device
+    os.makedirs(os.path.join(base, 'pd'), exist_ok=True)
+    for n in ('pipe.txt', 'pipepage.html', os.path.join('pd', 'index.html')):
+        if not os.path.lexists(os.path.join(base, n)): os.mkfifo(os.path.join(base, n))
+    for n, t in (('pipelnk.txt', 'pipe.txt'), ('null.txt', '/dev/null')):
+        if not os.path.lexists(os.path.join(base, n)): os.symlink(t, os.path.join(base, n))
     return hashlib.sha256(big).hexdigest()
 
 def split_response(r):
@@ -465,4 +472,765 @@ def pool_shapes(rng, tier):
     for n in ([16] if tier == 'quick' else [12, 16, 32]):
         out.append((n, 'p' * (2 * n + 1) + 'b' * n, True, 'large pool'))
         out.append((n, 'b' * (n - 1) + hist(20, 8) + 'b' + 'w' + 'b' * n, False, 'large pool'))
+    # second pass: the WHOLE pool idle for 300 ms (`z`) after panics and before the probe - a worker that gives up waiting, an idle
+    # reaper, a supervisor that replaces crashed workers after a while and miscounts show in what comes next
+    zs = [(2, 'pp' + 'wz' + 'p' + 'w' + 'bb'), (3, 'bb' + 'ppp' + 'b' + 'wz' + 'bbb')] if tier == 'quick' else \
+         [(n, pre + 'wz' + mid + 'w' + 'b' * n) for n in (1, 2, 3, 4, 8) for pre in ('p' * n, 'b' * (n - 1) + 'p' * (2 * n) + 'b', 'p' * (3 * n) + 'i') for mid in ('', 'p', 'p' * n + 'wz')]
+    for n, kinds in zs: out.append((n, kinds, False, 'pool idle for a while after panics'))
     return out
+
+# ================================================================================================ second audit pass
+# Features a maintainer of a static web server may add on the path of this property, and the RELATION of inputs each of them needs
+# (audit/C06/AUDIT2.md).  New elements of a history:
+#
+#     zoo/<i>/<end>         a valid request that carries a header (or a spelling of the request line) the server ignores so far:
+#                           Accept-Encoding, conditionals, Range pairs, Connection, Upgrade, TE, Transfer-Encoding with a complete chunked
+#                           body, Content-Encoding, Content-MD5, Forwarded / X-Forwarded-*, Prefer, Max-Forwards, Cookie, Authorization,
+#                           Host spellings, Origin, client hints, q-values ... in legal, odd and broken values; files with sidecars next
+#                           to them (.gz valid / empty / a directory / garbage, .br dangling link).  Answer = what a fresh server answers
+#     cold/<i>/<vp|pv>      file c<i>.txt is asked for the FIRST time on this server by a variant (HEAD, Range, query, 1.0, conditional,
+#                           Accept-Encoding, other method, other spelling of the path) and then plainly (vp), or the other way round (pv):
+#                           the plain answer is 200 + the file, the variant's answer is that of a fresh server asked the variant first
+#     rewrite/<j>/<how>     GET r<j>.txt, the file gets other content (other length; in place or by rename), GET: the new content
+#     create/<j>            GET n<j>.txt (absent), the file is created, GET: 200 + content; removed, GET: not 200
+#     keepalive/<req>/<after>   a valid request with `Connection: keep-alive` (1.1, 1.0, with Keep-Alive parameters, with Upgrade), the
+#                           answer is read by its Content-Length (not to end of stream) and THEN the client closes / resets / stays idle /
+#                           sends a second request / half a second request / garbage / half-closes.  First answer: 200 + file; a second
+#                           answer, if the server gives one: 200 + file
+#     talk/<name>           a scripted conversation (nothing demanded of it): Expect: 100-continue with the body after the interim answer
+#                           (whole, half, none, too much, without length, huge), chunked bodies in segments (cut in the size line, in the
+#                           data, before the last chunk, before the end of the trailer; sizes that overflow), Upgrade to websocket / h2c
+#                           followed by frames, an HTTP/2 preface, a TLS ClientHello, PROXY protocol v1 / v2 lines before the request, a second
+#                           request after the answer, a head sent one line at a time
+#     slow-read/<pace>      GET of a 1 MiB file by a client with a small receive buffer that reads slowly but steadily: complete and right
+#     together/<what>/<seed>    as many valid requests AT THE SAME MOMENT as workers are free (same large file / same small file / a mix of the
+#                           table): every one answered as a fresh server answers it
+#     storm/<kind>/<count>  the same simple connection <count> times (130 / 260 / 1030: thresholds 64, 100, 128, 255, 256, 1000, 1024), every
+#                           exit of Server::process: answered, 404, parse error, not origin form, empty read, reset, write error, cut body
+# and connections IN THE BACKGROUND of a whole history (key `bg` of a history): idle, half a head, a reader that asked for 8 MiB and does
+# not read (its worker sits in write), an upload waiting for `100 Continue`, a kept-alive connection - while they are open the other
+# workers must serve everything (a lock held across a blocking read or write, a per-file lock, a batch taken by the blocked worker show here);
+# at the end they close / reset / finish / stay open during the probe (which then holds N-1-k further idle connections).
+import gzip, threading
+
+MID_NAME = 'mid.bin'
+MID_SIZE = 1 << 20
+DOC = {}                     # name -> content of the files the second pass judges by content
+
+def mid_content():
+    return random.Random(0xC06 + 1).randbytes(MID_SIZE)
+
+def cold_content(i):
+    return (b'cold file %02d abcdefghijklmnopqrstuvwxyz\n' % i) * (10 + i)
+
+_write_docroot_1 = write_docroot
+def write_docroot(base):
+    sha = _write_docroot_1(base)
+    def put(name, content):
+        with open(os.path.join(base, name), 'wb') as fh: fh.write(content)
+        DOC[name] = content
+    put(MID_NAME, mid_content())
+    for i in range(len(COLD)): put('c%d.txt' % i, cold_content(i))
+    text = b''.join(b'line %04d of a file that compresses well\n' % k for k in range(75))
+    for name in 'stuvw': put(name + '.txt', name.encode() + b' ' + text)
+    # sidecars: a valid one, an empty one, a DIRECTORY, a dangling link, garbage
+    with open(os.path.join(base, 's.txt.gz'), 'wb') as fh: fh.write(gzip.compress(DOC['s.txt'], mtime=0))
+    open(os.path.join(base, 't.txt.gz'), 'wb').close()
+    os.makedirs(os.path.join(base, 'u.txt.gz'), exist_ok=True)
+    try: os.symlink('nowhere.br', os.path.join(base, 'v.txt.br'))
+    except OSError: pass
+    with open(os.path.join(base, 'w.txt.gz'), 'wb') as fh: fh.write(b'\x1f\x8b\x08 this is not a gzip stream')
+    return sha
+
+# ------------------------------------------------------------------------------------------------ reading ONE answer
+def read_answer(s, timeout=10, method=b'GET'):
+    """one complete answer from the socket: interim 1xx answers are skipped; complete = head + Content-Length bytes (no body after HEAD,
+    204, 304, 101), without a length: to end of stream.  None: nothing came (time-out / reset before any byte); b'': closed unanswered"""
+    s.settimeout(timeout)
+    buf = b''
+    try:
+        while True:
+            while b'\r\n\r\n' not in buf:
+                b = s.recv(1 << 16)
+                if not b: return buf
+                buf += b
+            head, _, rest = buf.partition(b'\r\n\r\n')
+            first = head.split(b'\r\n')[0].split(b' ')
+            code = first[1] if len(first) > 1 else b''
+            if code[:1] == b'1' and code != b'101' and first[0].startswith(b'HTTP/'):
+                buf = rest; continue                                # an interim answer: the real one follows
+            length = None
+            for l in head.split(b'\r\n')[1:]:
+                k, _, v = l.partition(b':')
+                if k.strip().lower() == b'content-length':
+                    try: length = int(v.strip())
+                    except ValueError: pass
+            if method == b'HEAD' or code in (b'204', b'304', b'101'): length = 0
+            if length is None:
+                while True:
+                    b = s.recv(1 << 16)
+                    if not b: return buf
+                    buf += b
+            want = len(head) + 4 + length
+            while len(buf) < want:
+                b = s.recv(1 << 16)
+                if not b: break
+                buf += b
+            return buf
+    except OSError:
+        return buf if buf else None
+
+def ask(server, raw, half_close=True, timeout=10):
+    """one connection, one request in one piece, ONE answer (read by its length: a server that keeps the connection open has answered)"""
+    s = _conn(server.port, timeout=timeout)
+    try:
+        s.setsockopt(socket.IPPROTO_TCP, socket.TCP_NODELAY, 1)
+        s.sendall(raw)
+        if half_close:
+            try: s.shutdown(socket.SHUT_WR)
+            except OSError: pass
+        return read_answer(s, timeout, raw.split(b' ', 1)[0])
+    finally:
+        try: s.close()
+        except OSError: pass
+
+def is_file_answer(r, content):
+    return bool(r) and r.startswith(b'HTTP/1.1 200') and split_response(r)[1] == content
+
+# ------------------------------------------------------------------------------------------------ the tables
+def _req(method=b'GET', target=b'/f.txt', headers=(), body=b'', version=b'HTTP/1.1', host=True):
+    lines = [method + b' ' + target + (b' ' + version if version else b'')]
+    if host: lines.append(b'Host: x')
+    lines += list(headers)
+    return b'\r\n'.join(lines) + b'\r\n\r\n' + body
+
+FORM_PATH = b'/form-url-encoded-enctype-post-method'
+def _form(headers=(), body=b'a=1&b=2', length=True, ctype=b'application/x-www-form-urlencoded'):
+    hs = [b'Content-Type: ' + ctype] + list(headers)
+    if length: hs.append(b'Content-Length: %d' % len(body))
+    return _req(b'POST', FORM_PATH, hs, body)
+
+def _zoo():
+    z = []
+    def add(name, raw): z.append((name, raw))
+    def hdr(name, lines, **kw): add(name, _req(headers=[l if isinstance(l, bytes) else l.encode() for l in lines], **kw))
+    # --- Accept-Encoding (compression, precompressed sidecars)
+    AE = ['gzip', 'gzip, deflate, br', 'gzip;q=0', 'gzip;q=1.0, identity;q=0.5', '*', '*;q=0', 'identity;q=0, *;q=0', '', 'GZIP', 'gzip;q=',
+          'gzip;q=abc', 'gzip ; q = 0.5', 'x-gzip', 'br;q=1.000', 'gzip;q=1.0000', ',,gzip,,', 'deflate', 'zstd, br;q=0.9, gzip;q=0.8', 'gzip;q=2',
+          'gzip;q=-1', 'gzip;q=1e3', 'gzip;q=0.0001', 'gzip;level=9']
+    for i, v in enumerate(AE): hdr(f'accept-encoding/{i}', ['Accept-Encoding: ' + v], target=b'/s.txt')
+    for t in (b'/s.txt', b'/t.txt', b'/u.txt', b'/v.txt', b'/w.txt', b'/f.txt', b'/sub/g.html', b'/', b'/no-such-file.txt', b'/script.js'):
+        hdr('sidecar' + t.decode(), ['Accept-Encoding: gzip, br'], target=t)
+    hdr('sidecar-head', ['Accept-Encoding: gzip'], target=b'/s.txt', method=b'HEAD')
+    hdr('sidecar-range', ['Accept-Encoding: gzip', 'Range: bytes=10-99'], target=b'/s.txt')
+    hdr('sidecar-direct', [], target=b'/s.txt.gz')
+    hdr('sidecar-dir', [], target=b'/u.txt.gz')
+    # --- conditionals
+    DATES = ['Sat, 29 Oct 1994 19:43:31 GMT', 'Fri, 01 Jan 2100 00:00:00 GMT', 'Sunday, 06-Nov-94 08:49:37 GMT', 'Sun Nov  6 08:49:37 1994', 'yesterday', '', '0', '-1',
+             'Sat, 99 Oct 1994 99:99:99 GMT', 'Sat, 29 Oct 1994 19:43:31 +0200', 'Fri, 31 Dec 9999 23:59:59 GMT', 'Sat, 01 Jan 0000 00:00:00 GMT',
+             'Thu, 01 Jan 1970 00:00:00 GMT', 'Wed, 31 Dec 1969 23:59:59 GMT', 'Tue, 19 Jan 2038 03:14:08 GMT', 'Mon, 29 Feb 2023 00:00:00 GMT', '1790570260686303596',
+             '18446744073709551616', 'Sat, 29 Oct 1994 19:43:31 GMT' * 40, 'Sat, 29 Oct 1994', 'Sat, 29 Oct 1994 24:00:60 GMT', 'sat, 29 oct 1994 19:43:31 gmt']
+    for i, v in enumerate(DATES): hdr(f'if-modified-since/{i}', ['If-Modified-Since: ' + v])
+    for i, v in enumerate(DATES[:4] + DATES[12:14]): hdr(f'if-unmodified-since/{i}', ['If-Unmodified-Since: ' + v])
+    TAGS = ['*', '"abc"', 'W/"abc"', '"a", "b"', 'abc', '', '"', 'W/', '"unterminated', '"' + 'e' * 900 + '"', '"a",', ', ,', '"\u00e9t\u00e9"', 'w/"abc"', '**']
+    for i, v in enumerate(TAGS): hdr(f'if-none-match/{i}', ['If-None-Match: ' + v])
+    for i, v in enumerate(TAGS[:3]): hdr(f'if-match/{i}', ['If-Match: ' + v])
+    hdr('if-none-match+since', ['If-None-Match: "abc"', 'If-Modified-Since: ' + DATES[1]])
+    hdr('if-none-match-head', ['If-None-Match: *'], method=b'HEAD')
+    hdr('if-none-match-post', ['If-None-Match: *'], method=b'PUT')
+    for i, v in enumerate(['"abc"', DATES[0], DATES[1], 'W/"abc"', '', 'abc']): hdr(f'if-range/{i}', ['Range: bytes=1-3', 'If-Range: ' + v])
+    hdr('if-range-alone', ['If-Range: "abc"'])
+    for i, v in enumerate(['bytes=0-0', 'bytes=4-4', 'bytes=5-', 'bytes=0-4', 'bytes=-1', 'bytes=-5', 'bytes=-6', 'bytes=0-,0-', 'bytes=' + ','.join('%d-%d' % (k % 5, k % 5) for k in range(60)),
+                           'bytes=0-0', 'BYTES=0-1', 'bytes = 0 - 1', 'items=0-1', 'bytes=1-0', 'bytes=0-18446744073709551615', 'bytes=4294967296-']):
+        hdr(f'range/{i}', ['Range: ' + v], method=(b'HEAD' if i == 9 else b'GET'))
+    # --- connection management
+    for i, v in enumerate(['close', 'keep-alive', 'Keep-Alive', 'keep-alive, Upgrade', 'TE', 'upgrade', 'foo', '', 'close, keep-alive', 'keep-alive, close', 'KEEP-ALIVE', 'keep-alive,']):
+        hdr(f'connection/{i}', ['Connection: ' + v])
+    for i, v in enumerate(['timeout=0', 'timeout=5, max=0', 'timeout=abc', 'max=-1', 'timeout=99999999999999999999', 'timeout=5, max=100', '', 'max=1']):
+        hdr(f'keep-alive-params/{i}', ['Connection: keep-alive', 'Keep-Alive: ' + v])
+    hdr('keep-alive-1.0', ['Connection: keep-alive'], version=b'HTTP/1.0')
+    hdr('proxy-connection', ['Proxy-Connection: keep-alive'])
+    for i, v in enumerate(['websocket', 'h2c', 'TLS/1.0', 'foo/1', '', 'websocket, h2c', 'WebSocket']):
+        hdr(f'upgrade/{i}', ['Connection: Upgrade', 'Upgrade: ' + v, 'Sec-WebSocket-Key: dGhlIHNhbXBsZSBub25jZQ==', 'Sec-WebSocket-Version: 13', 'HTTP2-Settings: AAMAAABkAAQAAP__'])
+    hdr('upgrade-no-connection', ['Upgrade: websocket'])
+    hdr('upgrade-no-key', ['Connection: Upgrade', 'Upgrade: websocket'])
+    hdr('upgrade-bad-key', ['Connection: Upgrade', 'Upgrade: websocket', 'Sec-WebSocket-Key: !!!', 'Sec-WebSocket-Version: 99'])
+    for i, v in enumerate(['trailers', 'chunked', 'gzip;q=0.5', '', 'trailers, deflate;q=0.5']): hdr(f'te/{i}', ['TE: ' + v, 'Connection: TE'])
+    for i, v in enumerate(['100-continue', '100-Continue', 'foo', '', '100-continue, foo']): hdr(f'expect-get/{i}', ['Expect: ' + v])
+    # --- bodies: Expect with the body in the same segment, complete chunked bodies, encodings, digests
+    for i, v in enumerate(['100-continue', '100-CONTINUE', 'bar']): add(f'expect-post/{i}', _form([b'Expect: ' + v.encode()]))
+    add('expect-post-empty', _form([b'Expect: 100-continue'], body=b''))
+    CH = [b'7\r\na=1&b=2\r\n0\r\n\r\n', b'3\r\na=1\r\n4\r\n&b=2\r\n0\r\n\r\n', b'7;x=y\r\na=1&b=2\r\n0\r\n\r\n', b'7\r\na=1&b=2\r\n0\r\nX-Trailer: t\r\n\r\n', b'0\r\n\r\n',
+          b'A\r\na=1&b=2345\r\n0\r\n\r\n', b'a\r\na=1&b=2345\r\n0\r\n\r\n', b'007\r\na=1&b=2\r\n000\r\n\r\n', b'ffffffffffffffff\r\na=1', b'7fffffffffffffff\r\na=1', b'100000000\r\na=1',
+          b'-1\r\na=1\r\n0\r\n\r\n', b'zz\r\na=1\r\n0\r\n\r\n', b'7\na=1&b=2\n0\n\n', b'7\r\na=1&b=2XX0\r\n\r\n', b'\r\n', b'', b'8\r\na=1&b=2\r\n0\r\n\r\n', b'1\r\na\r\n' * 200 + b'0\r\n\r\n']
+    for i, body in enumerate(CH): add(f'chunked/{i}', _form([b'Transfer-Encoding: chunked'], body, length=False))
+    for i, v in enumerate(['Chunked', 'gzip, chunked', 'identity', 'chunked, chunked', '', 'chunked;q=1']): add(f'transfer-encoding/{i}', _form([b'Transfer-Encoding: ' + v.encode()], CH[0], length=False))
+    add('chunked+length', _form([b'Transfer-Encoding: chunked'], CH[0]))
+    add('chunked-get', _req(headers=[b'Transfer-Encoding: chunked'], body=b'0\r\n\r\n'))
+    gz = gzip.compress(b'a=1&b=2', mtime=0)
+    for i, (v, body) in enumerate([('gzip', gz), ('gzip', b'a=1&b=2'), ('identity', b'a=1&b=2'), ('deflate', gz), ('br', b'\x0b\x03\x80a=1&b=2\x03'), ('gzip, gzip', gz), ('', b'a=1'), ('GZIP', gz[:10]), ('x-gzip', gz[:-4])]):
+        add(f'content-encoding/{i}', _form([b'Content-Encoding: ' + v.encode()], body))
+    import base64
+    md5 = base64.b64encode(hashlib.md5(b'a=1&b=2').digest())
+    for i, v in enumerate([md5, base64.b64encode(hashlib.md5(b'other').digest()), b'!!!not base64!!!', b'AAAA', b'', md5 + md5, md5.lower()]): add(f'content-md5/{i}', _form([b'Content-MD5: ' + v]))
+    add('digest', _form([b'Digest: sha-256=' + base64.b64encode(hashlib.sha256(b'a=1&b=2').digest()), b'Want-Digest: sha-256']))
+    add('digest-bad', _form([b'Digest: sha-256=AAAA, md5=', b'Repr-Digest: sha-256=:AAAA:']))
+    for i, v in enumerate(['application/x-www-form-urlencoded; charset=UTF-8', 'application/x-www-form-urlencoded; charset=latin1', 'application/x-www-form-urlencoded;charset="utf-8"',
+                           'application/x-www-form-urlencoded; charset=', 'application/x-www-form-urlencoded; charset=klingon', 'APPLICATION/X-WWW-FORM-URLENCODED', 'application/x-www-form-urlencoded;;', '', 'text/plain',
+                           'application/json', 'multipart/form-data', 'multipart/form-data; boundary=', 'multipart/form-data; boundary="B"', 'multipart/form-data; boundary=' + 'B' * 80]):
+        add(f'content-type/{i}', _form(body=b'a=1&b=2', ctype=v.encode()))
+    for i, v in enumerate(['0', '7', '+7', '07', '7, 7', '0x7', ' 7 ', '7.0', '']): add(f'content-length/{i}', _req(b'POST', FORM_PATH, [b'Content-Type: application/x-www-form-urlencoded', b'Content-Length: ' + v.encode()], b'a=1&b=2'))
+    add('content-length-get-0', _req(headers=[b'Content-Length: 0']))
+    # --- who is the client: proxies, credentials, cookies
+    ADDR = ['203.0.113.7', '203.0.113.7, 198.51.100.2', '203.0.113.7,198.51.100.2, 10.0.0.1', 'unknown', '', '::1', '[2001:db8::1]', '[2001:db8::1]:8080', '203.0.113.7:8080', 'client.example', '999.999.999.999',
+            '1.2.3', '203.0.113.7, ', ', 203.0.113.7', '\u76ee\u6a19', '1' * 300, '203.0.113.7 ' * 60, '-', '0', '0.0.0.0', '255.255.255.255', '127.0.0.1', 'fe80::1%eth0', '"203.0.113.7"', '2001:db8::1']
+    for i, v in enumerate(ADDR): hdr(f'x-forwarded-for/{i}', ['X-Forwarded-For: ' + v])
+    for i, v in enumerate(ADDR[:12]): hdr(f'x-real-ip/{i}', ['X-Real-IP: ' + v])
+    for i, v in enumerate(['for=203.0.113.7', 'for="[2001:db8::1]:8080"', 'for=unknown', 'for=_hidden', 'for=203.0.113.7;proto=https;by=10.0.0.1;host=h', 'for=1.2.3.4, for=5.6.7.8', 'For="_gazonk"', 'for=', '', ';;;',
+                           'for="unterminated', 'proto=https', 'for=203.0.113.7:abc', 'for="[::1"', 'for=a;for=b']):
+        hdr(f'forwarded/{i}', ['Forwarded: ' + v])
+    hdr('x-forwarded-all', ['X-Forwarded-For: 203.0.113.7', 'X-Forwarded-Proto: https', 'X-Forwarded-Host: other.example:8443', 'X-Forwarded-Port: 8443', 'Forwarded: for=198.51.100.2', 'Via: 1.1 proxy'])
+    for i, v in enumerate(['https', 'HTTPS', 'ftp', '', 'https, http']): hdr(f'x-forwarded-proto/{i}', ['X-Forwarded-Proto: ' + v])
+    for i, v in enumerate(['8443', '0', '-1', '65536', 'abc', '']): hdr(f'x-forwarded-port/{i}', ['X-Forwarded-Port: ' + v])
+    AUTH = ['Basic dXNlcjpwYXNz', 'Basic dXNlcg==', 'Basic !!!', 'Basic', 'Basic ', 'basic dXNlcjpwYXNz', 'Basic /w==', 'Basic Og==', 'Bearer abc.def.ghi', 'Digest username="x", realm="r", nonce="n", uri="/f.txt", response="0"',
+            'Negotiate', '', 'Basic dXNlcjpwYXNz dXNlcjpwYXNz', 'Basic ' + 'QUFB' * 1200, 'Basic dXNlcjpwYXNz\t', 'Basic  dXNlcjpwYXNz', 'Basic dXNlcjpwYXN', 'Basic 8J+YgDrwn5iA', 'Bearer', 'Unknown x']
+    for i, v in enumerate(AUTH): hdr(f'authorization/{i}', ['Authorization: ' + v])
+    hdr('authorization-twice', ['Authorization: Basic dXNlcjpwYXNz', 'Authorization: Bearer x'])
+    for i, v in enumerate(AUTH[:4]): hdr(f'proxy-authorization/{i}', ['Proxy-Authorization: ' + v])
+    COOKIE = ['a=b', 'a=b; c=d', 'a', '=b', 'a=', ';', '; ; a=b', 'a="quoted"', 'sessionid=' + 'k' * 4000, '; '.join('c%d=%d' % (k, k) for k in range(300)), 'a=b; a=c', 'a=\u76ee\u6a19', 'a=%zz', 'a=%', 'a=b;c=d',
+              'a=b;  c=d', 'a==b', '', 'a=b; $Version=1', 'a=b,c=d', ' a = b ']
+    for i, v in enumerate(COOKIE): hdr(f'cookie/{i}', ['Cookie: ' + v])
+    hdr('cookie-twice', ['Cookie: a=b', 'Cookie: c=d'])
+    HOSTS = ['x:80', 'x:', 'x:abc', 'x:99999', '[::1]', '[::1]:80', '[::1', '', ' x ', 'X', 'x.', 'h' * 255, 'xn--bcher-kva.example', 'b\u00fccher.example', 'a b', 'x, y', '127.0.0.1:0', 'x:-1', 'http://x', 'x/']
+    for i, v in enumerate(HOSTS): add(f'host/{i}', _req(headers=[('Host: ' + v).encode()], host=False))
+    add('host-twice', _req(headers=[b'Host: x', b'Host: y'], host=False))
+    add('host-missing-1.1', _req(host=False))
+    # --- negotiation, hints, preferences
+    for i, v in enumerate(['http://a', 'null', '', 'http://a http://b', 'http://\u76ee\u6a19', 'https://a:8443', 'a', 'http://' + 'a' * 2000]): hdr(f'origin/{i}', ['Origin: ' + v])
+    for i, (m, hs) in enumerate([('PUT', 'x-a, x-b'), ('GET', ''), ('FOO', 'x-a'), ('', ''), ('put', ', '.join('x-h%d' % k for k in range(100))), ('DELETE', '*')]):
+        hdr(f'preflight/{i}', ['Origin: http://a', 'Access-Control-Request-Method: ' + m, 'Access-Control-Request-Headers: ' + hs], method=b'OPTIONS')
+    HINTS = [('Sec-CH-UA-Arch', '"x86"'), ('Sec-CH-UA-Arch', 'x86'), ('Downlink', '1.5'), ('Downlink', 'abc'), ('Downlink', '-1'), ('ECT', '4g'), ('ECT', '6g'), ('RTT', '100'), ('RTT', '-1'), ('RTT', '99999999999999999999'),
+             ('Save-Data', 'on'), ('Save-Data', 'maybe'), ('Device-Memory', '8'), ('Device-Memory', '1e309'), ('Device-Memory', '0'), ('Sec-CH-Prefers-Color-Scheme', 'dark'), ('Sec-CH-Prefers-Reduced-Motion', 'reduce'),
+             ('Sec-CH-UA-Bitness', '"64"'), ('Sec-CH-UA-Full-Version-List', '"A";v="1.0", "B";v="2"'), ('Sec-CH-UA-Full-Version-List', '"A";v='), ('Sec-CH-UA-Platform-Version', '"\u76ee"'), ('Sec-CH-UA-Model', '""'),
+             ('Upgrade-Insecure-Requests', '1'), ('Upgrade-Insecure-Requests', 'abc'), ('DNT', '1'), ('Sec-GPC', '1'), ('Sec-Fetch-Mode', 'navigate')]
+    for i, (k, v) in enumerate(HINTS): hdr(f'hint/{i}', [f'{k}: {v}'])
+    hdr('hints-all', [f'{k}: {v}' for k, v in HINTS[::2]], target=b'/')
+    Q = ['text/html;q=0.8, */*;q=0.1', '*/*', '', 'text/html;q=1.5', 'text/html;q=-1', 'text/html;q=NaN', 'text/html;q=1e3', 'text/html;q=', 'text/html;level=1;q=0.5', 'text', '/', 'text/', ', '.join('a/b%d;q=0.%d' % (k, k % 10) for k in range(200))]
+    for i, v in enumerate(Q): hdr(f'accept/{i}', ['Accept: ' + v])
+    for i, v in enumerate(['en-US,en;q=0.9', '*', '', 'de;q=abc', 'x' * 3000, 'en-US-x-twain-u-co-phonebk', 'uk-UA;q=1, en;q=0']): hdr(f'accept-language/{i}', ['Accept-Language: ' + v], target=b'/')
+    for i, v in enumerate(['utf-8', 'iso-8859-1;q=0.5, *;q=0', '', 'klingon']): hdr(f'accept-charset/{i}', ['Accept-Charset: ' + v])
+    for i, v in enumerate(['return=minimal', 'respond-async, wait=10', 'wait=abc', 'return=representation; foo="bar"', '', 'wait=-1', 'handling=strict']): hdr(f'prefer/{i}', ['Prefer: ' + v])
+    for i, v in enumerate(['0', '1', '-1', 'abc', '99999999999999999999', '', '1, 2']):
+        hdr(f'max-forwards/{i}', ['Max-Forwards: ' + v], method=(b'OPTIONS', b'TRACE', b'GET')[i % 3])
+    for i, v in enumerate(['no-cache', 'max-age=0', 'only-if-cached', 'max-stale=abc', 'no-store, no-transform', 'max-age=-1', 'max-age=99999999999999999999', '', 'min-fresh=1, stale-if-error=9']): hdr(f'cache-control/{i}', ['Cache-Control: ' + v, 'Pragma: no-cache'])
+    for i, v in enumerate(['%s%n%x%d', '{}{0}{{}}{:?}', '\\', '"quoted" \'single\'', 'a\tb', '${jndi:ldap://x/a}', "';--", '<script>', 'Mozilla/5.0 (X11; Linux x86_64) ' * 30, '\u76ee' * 90, '', ' ', '%', '%25%00', '\x7f']):
+        hdr(f'user-agent/{i}', ['User-Agent: ' + v, 'Referer: http://x/?' + v, 'From: a@b'])
+    hdr('latin1-value', [b'X-Latin1: caf\xe9'])
+    hdr('date', ['Date: Sat, 29 Oct 1994 19:43:31 GMT', 'Date: nonsense'])
+    # --- shape of the head
+    hdr('empty-value', ['X-E:'])
+    hdr('no-space', ['X-N:v'])
+    hdr('many-spaces', ['X-S:      v      '])
+    hdr('tab', ['X-T:\tv\t'])
+    hdr('folded', ['X-F: a', ' folded', '\tagain'])
+    hdr('same-thrice', ['X-D: 1', 'X-D: 2', 'x-d: 3'])
+    hdr('token-chars', ["!#$%&'*+-.^_`|~: v"])
+    hdr('one-char-name', ['a: b'])
+    hdr('long-name', ['X-' + 'n' * 300 + ': v'])
+    hdr('space-before-colon', ['X-B : v'])
+    hdr('no-colon', ['X-NoColon'])
+    hdr('colon-only', [':'])
+    hdr('colons', ['X-C: a:b::c:'])
+    for k in (64, 65, 100, 128, 129, 256, 800): hdr(f'headers-{k}', ['h%d: %d' % (j, j) for j in range(k)])
+    hdr('header-8k', ['X-Big: ' + 'v' * 8000])
+    # --- shape of the request line
+    for i, (m, t, v) in enumerate([(b'GET', b'/f.txt', b'http/1.1'), (b'GET', b'/f.txt', b'HTTP/2.0'), (b'GET', b'/f.txt', b'HTTP/1.2'), (b'GET', b'/f.txt', b''), (b'GET', b'/f.txt', b'HTTP/1.1 '), (b'GET ', b'/f.txt', b'HTTP/1.1'),
+                                   (b'GET\t', b'/f.txt', b'HTTP/1.1'), (b'get', b'/f.txt', b'HTTP/1.1'), (b'HEAD', b'/f.txt', b'HTTP/1.1'), (b'OPTIONS', b'/f.txt', b'HTTP/1.1'), (b'OPTIONS', b'/', b'HTTP/1.1'), (b'TRACE', b'/f.txt', b'HTTP/1.1'),
+                                   (b'CONNECT', b'/f.txt', b'HTTP/1.1'), (b'PATCH', b'/f.txt', b'HTTP/1.1'), (b'DELETE', b'/f.txt', b'HTTP/1.1'), (b'PUT', b'/f.txt', b'HTTP/1.1'), (b'PROPFIND', b'/', b'HTTP/1.1'), (b'M' * 300, b'/f.txt', b'HTTP/1.1'),
+                                   (b'POST', b'/f.txt', b'HTTP/1.1'), (b'HEAD', b'/', b'HTTP/1.1'), (b'HEAD', b'/no-such-file.txt', b'HTTP/1.1'), (b'HEAD', FORM_PATH, b'HTTP/1.1'), (b'GET', FORM_PATH, b'HTTP/1.1'), (b'POST', b'/form-get-method?k=v', b'HTTP/1.1')]):
+        add(f'request-line/{i}', _req(m, t, version=v))
+    for i, t in enumerate([b'/f.txt?', b'/f.txt??', b'/f.txt?a=%', b'/f.txt?a=%zz', b'/f.txt?&&=', b'/f.txt?' + b'&'.join(b'p%d=%d' % (k, k) for k in range(800)), b'/f.txt#frag', b'/f.txt;v=1', b'/f%2etxt', b'/%66.txt', b'/f.txt%00', b'/f.txt%20',
+                           b'/./f.txt', b'/sub/../f.txt', b'//f.txt', b'/f.txt/', b'/sub', b'/sub/', b'/sub//g.html', b'/%2e%2e/f.txt', b'/%c0%ae%c0%ae/f.txt', b'/sub/%2e%2e/f.txt', b'/F.TXT', b'/f.txt.', b'/f.txt\\', b'/sub\\g.html', b'/+',
+                           b'/form-get-method', b'/form-get-method?', b'/form-get-method?=', b'/form-get-method?k', b'/form-get-method?k=v&k=w', b'/form-get-method?k=%e7%9b%ae', b'/form-get-method?k=%ff', b'/favicon.ico', b'/style.css', b'/script.js?x',
+                           b'/' + 'dir/'.encode() * 400, b'/' + '\u76ee'.encode() * 85 + b'.txt', b'/index.html', b'/.', b'/..', b'/...', b'/~', b'/*']):
+        add(f'target/{i}', _req(target=t))
+    return z
+
+def _cold():
+    def v(i, method=b'GET', headers=(), target=None, version=b'HTTP/1.1'):
+        return _req(method, target or (b'/c%d.txt' % i), [h.encode() for h in headers], version=version)
+    spec = [
+        ('head',            lambda i: v(i, b'HEAD')),
+        ('range',           lambda i: v(i, headers=['Range: bytes=2-9'])),
+        ('multi-range',     lambda i: v(i, headers=['Range: bytes=0-1, 5-9'])),
+        ('query',           lambda i: v(i, target=b'/c%d.txt?v=2' % i)),
+        ('http-1.0',        lambda i: v(i, version=b'HTTP/1.0')),
+        ('if-modified',     lambda i: v(i, headers=['If-Modified-Since: Fri, 01 Jan 2100 00:00:00 GMT'])),
+        ('if-none-match',   lambda i: v(i, headers=['If-None-Match: *'])),
+        ('accept-encoding', lambda i: v(i, headers=['Accept-Encoding: gzip, br'])),
+        ('options',         lambda i: v(i, b'OPTIONS', headers=['Origin: http://a'])),
+        ('post',            lambda i: v(i, b'POST', headers=['Content-Length: 0'])),
+        ('dot-segment',     lambda i: v(i, target=b'/./c%d.txt' % i)),
+        ('trailing-slash',  lambda i: v(i, target=b'/c%d.txt/' % i)),
+        ('other-case',      lambda i: v(i, target=b'/C%d.TXT' % i)),
+        ('double-slash',    lambda i: v(i, target=b'//c%d.txt' % i)),
+        ('percent',         lambda i: v(i, target=b'/%%63%d.txt' % i)),
+        ('unsatisfiable',   lambda i: v(i, headers=['Range: bytes=99999-'])),
+        ('origin',          lambda i: v(i, headers=['Origin: http://other.example'])),
+        ('accept-json',     lambda i: v(i, headers=['Accept: application/json'])),
+        ('authorization',   lambda i: v(i, headers=['Authorization: Basic dXNlcjpwYXNz'])),
+        ('cookie',          lambda i: v(i, headers=['Cookie: session=1'])),
+        ('head-range',      lambda i: v(i, b'HEAD', headers=['Range: bytes=0-0'])),
+        ('if-range',        lambda i: v(i, headers=['Range: bytes=1-3', 'If-Range: "abc"'])),
+        ('suffix-range',    lambda i: v(i, headers=['Range: bytes=-4'])),
+        ('no-host',         lambda i: b'GET /c%d.txt HTTP/1.1\r\n\r\n' % i),
+        ('lf-only',         lambda i: b'GET /c%d.txt HTTP/1.1\nHost: x\n\n' % i),
+        ('fragment',        lambda i: v(i, target=b'/c%d.txt#top' % i)),
+    ]
+    return [(name, f(i)) for i, (name, f) in enumerate(spec)]
+
+COLD = [None] * 26           # the length is needed by write_docroot before the table is built
+ZOO = _zoo()
+COLD = _cold()
+assert len(COLD) == 26
+
+def plain_cold(i):
+    return b'GET /c%d.txt HTTP/1.1\r\nHost: x\r\n\r\n' % i
+
+# ------------------------------------------------------------------------------------------------ conversations
+KA_REQS = {
+    'ka11':     b'GET /f.txt HTTP/1.1\r\nHost: x\r\nConnection: keep-alive\r\n\r\n',
+    'ka10':     b'GET /f.txt HTTP/1.0\r\nConnection: keep-alive\r\n\r\n',
+    'kaparams': b'GET /f.txt HTTP/1.1\r\nHost: x\r\nConnection: Keep-Alive\r\nKeep-Alive: timeout=1, max=2\r\n\r\n',
+    'kaupgrade': b'GET /f.txt HTTP/1.1\r\nHost: x\r\nConnection: keep-alive, Upgrade\r\nUpgrade: websocket\r\nSec-WebSocket-Key: dGhlIHNhbXBsZSBub25jZQ==\r\nSec-WebSocket-Version: 13\r\n\r\n',
+    'kamax0':   b'GET /f.txt HTTP/1.1\r\nHost: x\r\nConnection: keep-alive\r\nKeep-Alive: max=0\r\n\r\n',
+}
+KA_AFTER = ['close', 'rst', 'idle-close', 'idle-rst', 'second', 'second-open', 'second-half', 'second-half-fin', 'fin-wait', 'garbage', 'many', 'second-close-ka', 'nul', 'crlf']
+
+def _p(*steps): return list(steps)
+_EXPECT = lambda extra=b'', n=7: (b'POST ' + FORM_PATH + b' HTTP/1.1\r\nHost: x\r\nContent-Type: application/x-www-form-urlencoded\r\nExpect: 100-continue\r\n' + extra +
+                                  (b'Content-Length: %d\r\n' % n if n is not None else b'') + b'\r\n')
+_CHUNKED = b'POST ' + FORM_PATH + b' HTTP/1.1\r\nHost: x\r\nContent-Type: application/x-www-form-urlencoded\r\nTransfer-Encoding: chunked\r\n\r\n'
+_WS = (b'GET /f.txt HTTP/1.1\r\nHost: x\r\nConnection: Upgrade\r\nUpgrade: websocket\r\nSec-WebSocket-Key: dGhlIHNhbXBsZSBub25jZQ==\r\nSec-WebSocket-Version: 13\r\n\r\n')
+_H2PREFACE = b'PRI * HTTP/2.0\r\n\r\nSM\r\n\r\n' + b'\x00\x00\x00\x04\x00\x00\x00\x00\x00'
+_TLS = b'\x16\x03\x01\x00\xa5\x01\x00\x00\xa1\x03\x03' + bytes(range(32)) + b'\x00\x00\x02\x13\x01\x01\x00\x00\x76' + b'\x00' * 118
+# S = send, R = wait up to <ms> for bytes (returns at once when they come or the server closes), P = pause, then the end
+TALKS = {
+    'expect-body':       (_p(('S', _EXPECT()), ('R', 40), ('S', b'a=1&b=2'), ('R', 300)), 'close'),
+    'expect-half':       (_p(('S', _EXPECT()), ('R', 40), ('S', b'a=1')), 'close'),
+    'expect-half-fin':   (_p(('S', _EXPECT()), ('R', 40), ('S', b'a=1')), 'fin'),
+    'expect-none-fin':   (_p(('S', _EXPECT()), ('R', 40)), 'fin'),
+    'expect-none-close': (_p(('S', _EXPECT()), ('R', 40)), 'close'),
+    'expect-rst':        (_p(('S', _EXPECT()), ('R', 40)), 'rst'),
+    'expect-over':       (_p(('S', _EXPECT()), ('R', 40), ('S', b'a=1&b=2' + VALID), ('R', 300)), 'close'),
+    'expect-nocl':       (_p(('S', _EXPECT(b'Transfer-Encoding: chunked\r\n', None)), ('R', 40), ('S', b'7\r\na=1&b=2\r\n0\r\n\r\n'), ('R', 300)), 'close'),
+    'expect-cl0':        (_p(('S', _EXPECT(n=0)), ('R', 100)), 'close'),
+    'expect-10M':        (_p(('S', _EXPECT(n=10 ** 7)), ('R', 40), ('S', b'a=1')), 'fin'),
+    'expect-huge':       (_p(('S', _EXPECT(n=10 ** 15)), ('R', 40), ('S', b'a=1')), 'fin'),
+    'expect-bytewise':   (_p(('S', _EXPECT()), ('R', 40), *[('S', b'a=1&b=2'[k:k + 1]) for k in range(7)], ('R', 300)), 'close'),
+    'chunk-seg-size':    (_p(('S', _CHUNKED + b'7'), ('P', 3), ('S', b'\r\na=1&b=2\r\n0\r\n\r\n'), ('R', 300)), 'close'),
+    'chunk-seg-data':    (_p(('S', _CHUNKED + b'7\r\na=1'), ('P', 3), ('S', b'&b=2\r\n0\r\n\r\n'), ('R', 300)), 'close'),
+    'chunk-seg-last':    (_p(('S', _CHUNKED + b'7\r\na=1&b=2\r\n'), ('P', 3), ('S', b'0\r\n\r\n'), ('R', 300)), 'close'),
+    'chunk-no-last':     (_p(('S', _CHUNKED + b'7\r\na=1&b=2\r\n')), 'fin'),
+    'chunk-no-end':      (_p(('S', _CHUNKED + b'7\r\na=1&b=2\r\n0\r\n')), 'fin'),
+    'chunk-no-data':     (_p(('S', _CHUNKED + b'7\r\n')), 'fin'),
+    'chunk-in-size':     (_p(('S', _CHUNKED + b'7')), 'fin'),
+    'chunk-short-data':  (_p(('S', _CHUNKED + b'70\r\na=1&b=2')), 'close'),
+    'chunk-bad-size':    (_p(('S', _CHUNKED + b'zz\r\na=1\r\n0\r\n\r\n')), 'fin'),
+    'chunk-huge-size':   (_p(('S', _CHUNKED + b'ffffffffffffffff\r\na=1')), 'fin'),
+    'chunk-huge-size2':  (_p(('S', _CHUNKED + b'fffffffffffffff0\r\na=1')), 'close'),
+    'chunk-rst':         (_p(('S', _CHUNKED + b'7\r\na=1')), 'rst'),
+    'chunk-trailers':    (_p(('S', _CHUNKED + b'7\r\na=1&b=2\r\n0\r\nX-T: 1\r\n')), 'fin'),
+    'ws-frames':         (_p(('S', _WS), ('R', 100), ('S', b'\x81\x82\x01\x02\x03\x04ik'), ('R', 50), ('S', b'\x88\x80\x01\x02\x03\x04')), 'close'),
+    'ws-rst':            (_p(('S', _WS), ('R', 100)), 'rst'),
+    'ws-idle-fin':       (_p(('S', _WS), ('R', 100), ('P', 3)), 'fin'),
+    'ws-huge-frame':     (_p(('S', _WS), ('R', 100), ('S', b'\x82\xff\xff\xff\xff\xff\xff\xff\xff\xff\x01\x02\x03\x04abc')), 'fin'),
+    'h2c-upgrade':       (_p(('S', b'GET /f.txt HTTP/1.1\r\nHost: x\r\nConnection: Upgrade, HTTP2-Settings\r\nUpgrade: h2c\r\nHTTP2-Settings: AAMAAABkAAQAAP__\r\n\r\n'), ('R', 100), ('S', _H2PREFACE)), 'close'),
+    'h2-prior':          (_p(('S', _H2PREFACE), ('R', 100)), 'close'),
+    'h2-prior-fin':      (_p(('S', _H2PREFACE[:24])), 'fin'),
+    'tls-hello':         (_p(('S', _TLS), ('R', 100)), 'close'),
+    'tls-hello-fin':     (_p(('S', _TLS[:6])), 'fin'),
+    'proxy-v1':          (_p(('S', b'PROXY TCP4 203.0.113.7 198.51.100.2 51234 80\r\n' + VALID), ('R', 300)), 'close'),
+    'proxy-v1-apart':    (_p(('S', b'PROXY TCP4 203.0.113.7 198.51.100.2 51234 80\r\n'), ('P', 3), ('S', VALID), ('R', 300)), 'close'),
+    'proxy-v1-unknown':  (_p(('S', b'PROXY UNKNOWN\r\n' + VALID), ('R', 300)), 'close'),
+    'proxy-v1-bad':      (_p(('S', b'PROXY TCP4 999.1.1.1 x 1 2\r\n' + VALID), ('R', 300)), 'close'),
+    'proxy-v1-cut':      (_p(('S', b'PROXY TCP6 ::1 ::1 5')), 'fin'),
+    'proxy-v2':          (_p(('S', b'\r\n\r\n\x00\r\nQUIT\n\x21\x11\x00\x0c\xcb\x00\x71\x07\xc6\x33\x64\x02\xc8\x22\x00\x50' + VALID), ('R', 300)), 'close'),
+    'proxy-v2-long':     (_p(('S', b'\r\n\r\n\x00\r\nQUIT\n\x21\x11\xff\xff\xcb\x00\x71\x07')), 'fin'),
+    'smuggle-cl-te':     (_p(('S', b'POST ' + FORM_PATH + b' HTTP/1.1\r\nHost: x\r\nContent-Type: application/x-www-form-urlencoded\r\nContent-Length: 4\r\nTransfer-Encoding: chunked\r\n\r\n0\r\n\r\n' + VALID), ('R', 300)), 'close'),
+    'again-after-answer': (_p(('S', VALID), ('R', 300), ('S', VALID), ('R', 100)), 'close'),
+    'again-after-answer-rst': (_p(('S', VALID), ('R', 300), ('S', VALID)), 'rst'),
+    'line-at-a-time':    (_p(('S', b'GET /f.txt HTTP/1.1\r\n'), *[x for k in range(8) for x in (('P', 2), ('S', b'X-L%d: %d\r\n' % (k, k)))], ('P', 2), ('S', b'\r\n'), ('R', 300)), 'close'),
+    'line-at-a-time-never': (_p(('S', b'GET /f.txt HTTP/1.1\r\n'), *[x for k in range(8) for x in (('P', 2), ('S', b'X-L%d: %d\r\n' % (k, k)))]), 'close'),
+    'nul-after-head':    (_p(('S', VALID + b'\x00' * 100), ('R', 300)), 'close'),
+    'crlf-first':        (_p(('S', b'\r\n\r\n' + VALID), ('R', 300)), 'close'),
+    'oob':               (_p(('S', VALID[:10]), ('O', b'!'), ('S', VALID[10:]), ('R', 300)), 'close'),
+}
+SLOW_PACES = ['steady', 'pauses', 'tiny']
+TOGETHER = ['same-big', 'same-mid', 'same-small', 'mixed', 'zoo']
+STORM_KINDS = ['valid', 'valid-open', 'head', 'missing', 'form', 'garbage', 'nonorigin', 'empty', 'fin', 'rst', 'sent-rst', 'half', 'cut-body', 'big-rst', 'oversized']
+STORM_HEAVY = ('big-rst',)
+REWRITE_HOW = ['inplace', 'rename', 'shrink']
+
+NEW_KINDS2 = ['zoo', 'cold', 'rewrite', 'create', 'keepalive', 'talk', 'slow-read', 'together', 'storm']
+SELF_JUDGED = ('hold', 'probe', 'cold', 'rewrite', 'create', 'keepalive', 'slow-read', 'together', 'storm')
+DEMANDED = DEMANDED + ('zoo',)
+
+_pick_variant_1 = pick_variant
+def pick_variant(kind, rng, n, quick_stall=False):
+    if kind == 'zoo': return f'zoo/{rng.below(len(ZOO))}/{rng.choice(["fin", "open"])}'
+    if kind == 'cold': return f'cold/{rng.below(len(COLD))}/{rng.choice(["vp", "pv"])}'
+    if kind == 'rewrite': return f'rewrite/{rng.below(4)}/{rng.choice(REWRITE_HOW)}'
+    if kind == 'create': return f'create/{rng.below(4)}'
+    if kind == 'keepalive': return f'keepalive/{rng.choice(sorted(KA_REQS))}/{rng.choice(KA_AFTER)}'
+    if kind == 'talk': return 'talk/' + rng.choice(sorted(TALKS))
+    if kind == 'slow-read': return 'slow-read/' + rng.choice(SLOW_PACES)
+    if kind == 'together': return f'together/{rng.choice(TOGETHER)}/{rng.below(1 << 16)}'
+    if kind == 'storm': return f'storm/{rng.choice(STORM_KINDS)}/{rng.choice([20, 40])}'
+    return _pick_variant_1(kind, rng, n, quick_stall)
+
+def _wait_bytes(s, ms):
+    """wait up to ms for bytes; returns them (b'' at end of stream, None when nothing came or the connection was reset)"""
+    s.settimeout(ms / 1000.0)
+    try: return s.recv(1 << 16)
+    except OSError: return None
+
+def _storm_one(server, kind):
+    """one connection of a storm; returns None, or a description when a demanded answer is missing"""
+    if kind in ('valid', 'valid-open'):
+        r = ask(server, VALID, half_close=(kind == 'valid'))
+        return None if is_file_answer(r, b'hello') else 'GET /f.txt answered ' + repr((r or b'')[:40])
+    if kind == 'head':
+        r = ask(server, b'HEAD /f.txt HTTP/1.1\r\nHost: x\r\n\r\n')
+        return None if r and r.startswith(b'HTTP/1.1 200') else 'HEAD /f.txt answered ' + repr((r or b'')[:40])
+    if kind == 'missing':
+        r = ask(server, b'GET /no-such-file.txt HTTP/1.1\r\nHost: x\r\n\r\n')
+        return None if r and r.startswith(b'HTTP/1.1 ') else 'GET /no-such-file.txt answered ' + repr((r or b'')[:40])
+    if kind == 'form':
+        r = ask(server, FORM % 3 + b'a=1')
+        return None if r and r.startswith(b'HTTP/1.1 200') else 'the form post answered ' + repr((r or b'')[:40])
+    s = _conn(server.port)
+    try:
+        if kind == 'garbage': s.sendall(b'\xff\xfe\x00 garbage\r\n\r\n'); s.close()
+        elif kind == 'nonorigin': s.sendall(b'GET x HTTP/1.1\r\n\r\n'); s.close()
+        elif kind == 'empty': s.close()
+        elif kind == 'fin': s.shutdown(socket.SHUT_WR); _wait_bytes(s, 2000); s.close()
+        elif kind == 'rst': _rst(s)
+        elif kind == 'sent-rst': s.sendall(VALID); _rst(s)
+        elif kind == 'half': s.sendall(b'GET /f.t'); s.close()
+        elif kind == 'cut-body': s.sendall(FORM % 500 + b'a=1'); s.close()
+        elif kind == 'big-rst': s.sendall(b'GET /%s HTTP/1.1\r\nHost: x\r\n\r\n' % BIG_NAME.encode()); _rst(s)
+        elif kind == 'oversized': s.sendall(b'\xfe' * (alloc_of(server) + 1)); s.close()
+    except OSError:
+        try: s.close()
+        except OSError: pass
+    return None
+
+def run_new2(server, elem, ctx):
+    """elements of the second pass; same contract as run_new.  Self-judged kinds answer b'HTTP/1.1 200 <kind>' or (None, what is wrong)"""
+    p = elem.split('/')
+    kind = p[0]
+    port = server.port
+    base = server.docroot
+    OK = b'HTTP/1.1 200 ' + kind.encode()
+    try:
+        if kind == 'zoo':
+            name, raw = ZOO[int(p[1])]
+            return ask(server, raw, half_close=(p[2] == 'fin')), name
+        if kind == 'cold':
+            i = int(p[1]); name, raw = COLD[i]
+            content = DOC['c%d.txt' % i]
+            want = ctx['fresh'].get(('cold', i))
+            wrong = []
+            for step in p[2]:
+                if step == 'p':
+                    r = ask(server, plain_cold(i), half_close=(i % 2 == 0))
+                    if not is_file_answer(r, content):
+                        wrong.append(f'GET /c{i}.txt {"after" if p[2] == "vp" else "before"} its variant `{name}`: ' + (repr(r[:30]) + f' … body of {len(split_response(r)[1])} bytes' if r else 'not answered'))
+                else:
+                    r = ask(server, raw, half_close=(i % 2 == 1))
+                    if not r: wrong.append(f'variant `{name}` of /c{i}.txt not answered')
+                    elif want is not None and norm(r) != want:
+                        wrong.append(f'variant `{name}` of /c{i}.txt {"first" if p[2] == "vp" else "after the plain request"}: not the answer of a fresh server asked it first: ' + repr(r[:30]) + ' … ' + repr(r[-40:]))
+            return (OK, name) if not wrong else (None, '; '.join(wrong))
+        if kind in ('rewrite', 'create'):
+            j = int(p[1])
+            ctx['serial'] = serial = ctx.get('serial', 0) + 1
+            name = ('r%d-%d.txt' if kind == 'rewrite' else 'n%d-%d.txt') % (j, port)      # histories run side by side in one document root
+            path = os.path.join(base, name)
+            get = b'GET /%s HTTP/1.1\r\nHost: x\r\n\r\n' % name.encode()
+            def content(k, reps): return (b'%s version %d of %s\n' % (kind.encode(), k, name.encode())) * reps
+            def write(data, how):
+                if how == 'rename':
+                    with open(path + '.new', 'wb') as fh: fh.write(data)
+                    os.replace(path + '.new', path)
+                else:
+                    with open(path, 'wb') as fh: fh.write(data)
+            wrong = []
+            try:
+                if kind == 'rewrite':
+                    a, b = content(2 * serial, 9), content(2 * serial + 1, 3 if p[2] == 'shrink' else 14)
+                    write(a, 'inplace')
+                    r = ask(server, get)
+                    if not is_file_answer(r, a): wrong.append(f'GET /{name} (just written, {len(a)} bytes): ' + (repr(r[:30]) + f' … body of {len(split_response(r)[1])} bytes' if r else 'not answered'))
+                    write(b, p[2])
+                    r = ask(server, get, half_close=False)
+                    if not is_file_answer(r, b): wrong.append(f'GET /{name} after the file got other content ({len(a)} -> {len(b)} bytes, {p[2]}): ' + (repr(r[:30]) + f' … body of {len(split_response(r)[1])} bytes, ' + ('the OLD content' if split_response(r)[1] == a else 'neither old nor new content') if r else 'not answered'))
+                else:
+                    try: os.remove(path)
+                    except OSError: pass
+                    r = ask(server, get)
+                    if not r: wrong.append(f'GET /{name} (absent) not answered')
+                    a = content(serial, 5)
+                    write(a, 'inplace')
+                    r = ask(server, get, half_close=False)
+                    if not is_file_answer(r, a): wrong.append(f'GET /{name} after the file was created: ' + (repr(r[:40]) if r else 'not answered'))
+                    os.remove(path)
+                    r = ask(server, get)
+                    if not r: wrong.append(f'GET /{name} (removed) not answered')
+                    elif r.startswith(b'HTTP/1.1 200'): wrong.append(f'GET /{name} after the file was removed: still 200')
+            finally:
+                try: os.remove(path)
+                except OSError: pass
+            return (OK, '') if not wrong else (None, '; '.join(wrong))
+        if kind == 'keepalive':
+            raw, after = KA_REQS[p[1]], p[2]
+            s = _conn(port)
+            s.setsockopt(socket.IPPROTO_TCP, socket.TCP_NODELAY, 1)
+            wrong = []
+            try:
+                if after == 'second-close-ka':       # two requests in one segment, the second one says close
+                    s.sendall(raw + VALID.replace(b'\r\n\r\n', b'\r\nConnection: close\r\n\r\n'))
+                else:
+                    s.sendall(raw)
+                r = read_answer(s, 10)
+                if not is_file_answer(r, b'hello'):
+                    wrong.append('first request on the connection: ' + (repr(r[:40]) if r else 'not answered'))
+                def second(req, wait):
+                    try: s.sendall(req)
+                    except OSError: return
+                    r2 = read_answer(s, wait)
+                    if r2 and r2.startswith(b'HTTP/') and not is_file_answer(r2, b'hello'):
+                        wrong.append('the server answered a second request on the connection, wrongly: ' + repr(r2[:40]) + ' … ' + repr(r2[-20:]))
+                if after == 'close': pass
+                elif after == 'rst': _rst(s); return (OK, '') if not wrong else (None, '; '.join(wrong))
+                elif after == 'idle-close': time.sleep(0.005)
+                elif after == 'idle-rst': time.sleep(0.005); _rst(s); return (OK, '') if not wrong else (None, '; '.join(wrong))
+                elif after == 'second': second(raw, 2); 
+                elif after == 'second-open': second(VALID, 2)
+                elif after == 'second-half':
+                    try: s.sendall(b'GET /f.txt HTT')
+                    except OSError: pass
+                elif after == 'second-half-fin':
+                    try: s.sendall(raw[:-2]); s.shutdown(socket.SHUT_WR)
+                    except OSError: pass
+                    _wait_bytes(s, 1000)
+                elif after == 'fin-wait':
+                    try: s.shutdown(socket.SHUT_WR)
+                    except OSError: pass
+                    _wait_bytes(s, 1000)
+                elif after == 'garbage':
+                    try: s.sendall(b'\xff\xfe\x00 garbage\r\n\r\n')
+                    except OSError: pass
+                    _wait_bytes(s, 300)
+                elif after == 'many':
+                    for _ in range(5): second(raw, 2)
+                elif after == 'second-close-ka':
+                    r2 = read_answer(s, 0.3)
+                    if r2 and r2.startswith(b'HTTP/') and not is_file_answer(r2, b'hello'): wrong.append('second of two requests sent together answered wrongly: ' + repr(r2[:40]))
+                elif after == 'nul':
+                    try: s.sendall(b'\x00')
+                    except OSError: pass
+                elif after == 'crlf':
+                    try: s.sendall(b'\r\n')
+                    except OSError: pass
+                    _wait_bytes(s, 300)
+            except OSError:
+                pass
+            try: s.close()
+            except OSError: pass
+            return (OK, '') if not wrong else (None, '; '.join(wrong))
+        if kind == 'talk':
+            steps, end = TALKS[p[1]]
+            s = _conn(port)
+            s.setsockopt(socket.IPPROTO_TCP, socket.TCP_NODELAY, 1)
+            try:
+                for op, arg in steps:
+                    if op == 'S': s.sendall(arg)
+                    elif op == 'O': s.send(arg, socket.MSG_OOB)
+                    elif op == 'R': _wait_bytes(s, arg)
+                    elif op == 'P': time.sleep(arg / 1000.0)
+            except OSError:
+                pass                                  # the server answered the head and closed: what a client that talks on sees
+            return _end(s, end, wait=1), ''
+        if kind == 'slow-read':
+            pace = p[1]
+            s = _conn(port, timeout=10, rcvbuf=(4096 if pace != 'pauses' else 65536))
+            s.sendall(b'GET /%s HTTP/1.1\r\nHost: x\r\n\r\n' % MID_NAME.encode())
+            if pace == 'pauses': s.shutdown(socket.SHUT_WR)
+            chunks, got = [], 0
+            try:
+                while True:
+                    b = s.recv(200 if (pace == 'tiny' and got < 6000) else 16384)
+                    if not b: break
+                    chunks.append(b); got += len(b)
+                    if pace == 'steady' and len(chunks) % 5 == 0: time.sleep(0.0005)
+                    elif pace == 'tiny' and got < 6000: time.sleep(0.0002)
+                    elif pace == 'pauses' and len(chunks) % 24 == 0: time.sleep(0.012)
+            except OSError:
+                pass
+            s.close()
+            r = b''.join(chunks)
+            if is_file_answer(r, DOC[MID_NAME]): return OK, ''
+            return None, f'GET /{MID_NAME} read slowly ({pace}): ' + (repr(r[:30]) + f' … {len(split_response(r)[1])} of {MID_SIZE} body bytes' if r else 'not answered')
+        if kind == 'together':
+            from vlib import common as C
+            what, r = p[1], C.Rng(int(p[2]))
+            k = max(1, min(ctx['n'], 8))
+            jobs = []
+            for t in range(k):
+                if what == 'same-big': jobs.append(('valid-big', b'GET /%s HTTP/1.1\r\nHost: x\r\n\r\n' % BIG_NAME.encode()))
+                elif what == 'same-mid': jobs.append(('mid', b'GET /%s HTTP/1.1\r\nHost: x\r\n\r\n' % MID_NAME.encode()))
+                elif what == 'same-small': jobs.append(('valid', VALID))
+                elif what == 'zoo':
+                    i = r.below(len(ZOO)); jobs.append((f'zoo/{i}/fin', ZOO[i][1]))
+                else:
+                    i = r.below(len(VALIDS)); jobs.append((f'valid-other/{i}/fin', VALIDS[i][1]))
+            out = [None] * k
+            barrier = threading.Barrier(k)
+            def work(t):
+                try: barrier.wait(timeout=10)
+                except threading.BrokenBarrierError: pass
+                try: out[t] = ask(server, jobs[t][1], half_close=(t % 2 == 0), timeout=20)
+                except OSError: out[t] = None
+            ts = [threading.Thread(target=work, args=(t,), daemon=True) for t in range(k)]
+            for t in ts: t.start()
+            for t in ts: t.join()
+            wrong = []
+            for (e, raw), a in zip(jobs, out):
+                if e == 'mid': bad = None if is_file_answer(a, DOC[MID_NAME]) else ('not the file: ' + (repr(a[:30]) + f' … {len(split_response(a)[1])} body bytes' if a else 'not answered'))
+                else: bad = judge_answer(e, a, ctx)
+                if bad: wrong.append(f'{e}: {bad}')
+            return (OK, '') if not wrong else (None, f'{len(wrong)} of {k} requests made at the same moment on {ctx["n"]} free workers: ' + '; '.join(wrong[:2]))
+        if kind == 'storm':
+            what, count = p[1], int(p[2])
+            bad = []
+            for _ in range(count):
+                try: b = _storm_one(server, what)
+                except OSError as e: b = f'{type(e).__name__}: {e}' if what in ('valid', 'valid-open', 'head', 'missing', 'form') else None
+                if b:
+                    bad.append(b)
+                    if len(bad) >= 2: break
+            return (OK, '') if not bad else (None, f'storm of {count} x {what}: ' + '; '.join(bad))
+        return None, 'unknown kind ' + elem
+    except OSError as e:
+        return None, f'{elem}: {type(e).__name__}: {e}'
+
+_run_new_1 = run_new
+def run_new(server, elem, ctx):
+    if elem.split('/')[0] in NEW_KINDS2: return run_new2(server, elem, ctx)
+    return _run_new_1(server, elem, ctx)
+
+_judge_answer_1 = judge_answer
+def judge_answer(elem, r, ctx):
+    kind = elem.split('/')[0]
+    if kind in SELF_JUDGED: return None if r else 'wrong or no answer'
+    if kind == 'zoo':
+        i = int(elem.split('/')[1])
+        want = ctx['fresh'].get(('zoo', i))
+        if want is None:
+            # a fresh server does not answer this one reproducibly: only what is demanded of every fault-provoking request - the
+            # connection ends (closed without an answer is accepted; a time-out is not).  A request longer than the request buffer may be
+            # RESET after the answer (unread input): nothing demanded
+            if r is None and len(ZOO[i][1]) <= min(ZOO_MAX, (ctx.get('alloc') or 10000) - 100): return f'no answer and the connection stays open or is reset ({ZOO[i][0]})'
+            return None
+        if not r: return f'not answered ({ZOO[i][0]}; a fresh server answers it)'
+        if norm(r) != want: return f'answer differs from the answer of a fresh server to the same request ({ZOO[i][0]}): ' + repr(r[:30]) + ' … ' + repr(r[-60:])
+        return None
+    return _judge_answer_1(elem, r, ctx)
+
+_fresh_answers_1 = fresh_answers
+ZOO_MAX = 9900               # a request longer than the request buffer is answered and then RESET (unread input): what the client sees is a race
+def fresh_answers(Server, base, alloc=None, args=(), zoo_need=None):
+    """fresh answers of the first pass, plus: every cold variant asked as the FIRST request for its file, every request of ZOO
+    (zoo_need: only these indices) that fits into the request buffer - each twice; what is not answered the same way twice is left out"""
+    out = {'_zoo': set()}
+    with Server(base, threads=2, alloc=alloc, args=args, capture_stdout=False) as srv:
+        for i, (name, raw) in enumerate(COLD): _twice(srv, out, ('cold', i), raw)
+        for i, (name, raw) in enumerate(VALIDS):
+            try:
+                a = srv.request(raw, timeout=10)
+                b = srv.request(raw, timeout=10, half_close=False)
+            except OSError:
+                continue
+            if a and norm(a) == norm(b): out[i] = norm(a)
+        _fresh_zoo(srv, out, alloc, zoo_need)
+    return out
+
+def _twice(srv, out, key, raw):
+    try:
+        a = ask(srv, raw, True)
+        b = ask(srv, raw, False)
+    except OSError:
+        return
+    if a and b and norm(a) == norm(b): out[key] = norm(a)
+
+def _fresh_zoo(srv, out, alloc, need):
+    for i, (name, raw) in enumerate(ZOO):
+        if i in out['_zoo'] or (need is not None and i not in need): continue
+        out['_zoo'].add(i)
+        if len(raw) <= min(ZOO_MAX, (alloc or 10000) - 100): _twice(srv, out, ('zoo', i), raw)
+
+def fresh_more(Server, base, fresh, alloc, args, need):
+    """fresh answers to further requests of ZOO (a new fresh server)"""
+    if all(i in fresh['_zoo'] for i in need): return
+    with Server(base, threads=2, alloc=alloc, args=args, capture_stdout=False) as srv:
+        _fresh_zoo(srv, fresh, alloc, need)
+
+# ------------------------------------------------------------------------------------------------ connections in the background
+BG_KINDS = ['idle', 'half', 'reader', 'expect', 'ka', 'upload']
+BG_ENDS = ['close', 'rst', 'finish', 'keep']
+
+def bg_open(server, specs):
+    """opens the background connections `kind:end`; each occupies one worker for as long as it is open (on the unchanged server: `ka`
+    does not - the server closes after its answer)"""
+    conns = []
+    for spec in specs:
+        kind = spec.split(':')[0]
+        s = _conn(server.port, timeout=10, rcvbuf=(4096 if kind == 'reader' else None))
+        try:
+            if kind == 'half': s.sendall(b'GET /f.txt HTTP/1.1\r\nHost: x\r\nX-Half')
+            elif kind == 'reader': s.sendall(b'GET /%s HTTP/1.1\r\nHost: x\r\n\r\n' % BIG_NAME.encode())
+            elif kind == 'expect': s.sendall(_EXPECT(n=70))
+            elif kind == 'upload': s.sendall(FORM % 5000 + b'a=1&b=')
+            elif kind == 'ka':
+                s.sendall(KA_REQS['ka11']); read_answer(s, 10)
+        except OSError:
+            pass
+        conns.append(s)
+    if conns: time.sleep(0.02)          # a courtesy: the readers' answers fill the socket buffers, the others are with their workers
+    return conns, time.time()
+
+def bg_end(server, conns, specs, opened, min_ms=0):
+    """ends the background connections as their spec says (after they have been open for min_ms); returns the sockets that stay open"""
+    if conns and min_ms:
+        left = min_ms / 1000.0 - (time.time() - opened)
+        if left > 0: time.sleep(left)
+    kept = []
+    for s, spec in zip(conns, specs):
+        kind, _, end = spec.partition(':')
+        try:
+            if end == 'keep': kept.append(s); continue
+            if end == 'rst': _rst(s); continue
+            if end == 'finish':
+                if kind == 'idle': s.sendall(VALID)
+                elif kind == 'half': s.sendall(b': 1\r\n\r\n')
+                elif kind == 'expect': s.sendall(b'a=1&b=2' * 10)
+                elif kind == 'upload': s.sendall(b'x' * 4994)
+                elif kind == 'ka': s.sendall(VALID)
+                _read_all(s, 5 if kind != 'reader' else 20)
+            s.close()
+        except OSError:
+            try: s.close()
+            except OSError: pass
+    return kept
